@@ -87,7 +87,7 @@ ValueStart(c, sk, ap, cur, cm) ==
     [] c = 110  -> RS("n1", sk, FALSE)
     [] c = 64   -> RS("sc0", sk, FALSE)
     [] c = 47   -> IF cm THEN Slash(cur, sk, ap) ELSE RUnspec
-    [] c = 35   -> IF cm THEN Hash(cur, sk) ELSE RUnspec
+    [] c = 35   -> IF cm \/ cur = "oValue" THEN Hash(cur, sk) ELSE RUnspec      \* a user comment may stand between a key and its value
     [] OTHER    -> RDead
 
 \* a byte arriving in one of the "between tokens" states
@@ -108,7 +108,8 @@ Between(st, c, sk, ap) ==
     [] st = "oColon"    ->
         (CASE Sp(c) \/ Nl(c) -> RS(st, sk, FALSE)
            [] c = 58  -> RS("oValue", sk, FALSE)
-           [] c \in {47, 35} -> RUnspec
+           [] c = 35  -> Hash(st, sk)                                   \* ... and between the key and the colon
+           [] c = 47  -> RUnspec
            [] OTHER   -> RDead)
     [] st = "oAfterVal" ->
         (CASE Sp(c)   -> RS(st, sk, ap)
